@@ -171,6 +171,218 @@ def fault_run(items, ops, where, k, exc):
     return drive_ops("asl"), drive_ops("std")
 
 
+def lazy_run(items, key, ops):
+    """C05 for groupby: after every operation the number of items taken from the source and the number of key
+    function calls are those of itertools.groupby (same operations)"""
+    def mk(lib):
+        n = {"src": 0, "key": 0}
+        trace = []
+        if lib == "asl":
+            class S:
+                def __init__(s):
+                    s.items = list(items)
+
+                def __aiter__(s):
+                    return s
+
+                async def __anext__(s):
+                    n["src"] += 1
+                    if not s.items:
+                        raise StopAsyncIteration
+                    return s.items.pop(0)
+
+            async def kf(x):
+                n["key"] += 1
+                return apply_fn(key, [x]) if key is not None else x.key
+            gb = a.groupby(S(), key=kf)
+        else:
+            class I:       # class-based: a re-poll after exhaustion is counted, as for the async source
+                def __init__(s):
+                    s.items = list(items)
+
+                def __iter__(s):
+                    return s
+
+                def __next__(s):
+                    n["src"] += 1
+                    if not s.items:
+                        raise StopIteration
+                    return s.items.pop(0)
+
+            def kf(x):
+                n["key"] += 1
+                return apply_fn(key, [x]) if key is not None else x.key
+            gb = itertools.groupby(I(), key=kf)
+        groups = []
+
+        async def go():
+            for op in ops:
+                try:
+                    if op[0] == "adv":
+                        kk, g = (await gb.__anext__()) if lib == "asl" else next(gb)
+                        groups.append(g)
+                    elif op[1] < len(groups):
+                        (await groups[op[1]].__anext__()) if lib == "asl" else next(groups[op[1]])
+                except (StopAsyncIteration, StopIteration):
+                    pass
+                trace.append((n["src"], n["key"]))
+        drive(go())
+        return trace
+    return mk("asl"), mk("std")
+
+
+def aspect_lazy(rep, rng, n):
+    """called by the C05 check as well"""
+    fails = 0
+    for _ in range(n):
+        items, key, ops = gen_case(rng, "quick", with_close=False)
+        ta, ts = lazy_run(items, key, ops)
+        rep.count(("gb-lazy", repr(items), key, tuple(ops)), len(items) > 1 and len(ops) > 2)
+        if ta != ts:
+            fails += 1
+            rep.violation("groupby:laziness", {"items": repr(items), "key": key, "ops": ops,
+                                               "why": "(source pulls, key calls) after each operation: asyncstdlib %r itertools %r" % (ta, ts)})
+    return fails
+
+
+def aspect_faults(rep, rng, n):
+    """C06 for groupby (called by the C06 check as well): errors of the source or the key function surface unchanged
+    where itertools.groupby would raise"""
+    fails = 0
+    for _ in range(n):
+        items, key, ops = gen_case(rng, "quick", with_close=False)
+        where = rng.choice(["src", "key"])
+        k = rng.randrange(1, len(items) + 3)
+        exc = rng.choice(FAULT_TYPES)("injected")
+        oa, os_ = fault_run(items, ops, where, k, exc)
+        rep.count(("fault", repr(items), tuple(ops), where, k, type(exc).__name__), True)
+        bad = None
+        fired_std = os_ and os_[-1][0] == "raise"
+        if fired_std:
+            if not (oa and oa[-1][0] == "raise" and oa[-1][1]) or len(oa) != len(os_):
+                bad = "itertools.groupby raises the injected %s at operation %d; asyncstdlib: %r" % (type(exc).__name__, len(os_) - 1, oa[-2:])
+            elif not builtins.all(same_obs(x, y) for x, y in builtins.zip(oa[:-1], os_[:-1])):
+                bad = "observations before the fault differ: %r vs %r" % (oa, os_)
+        elif oa and oa[-1][0] == "raise" and not oa[-1][1]:
+            bad = "asyncstdlib raised a different exception: %r" % (oa[-1],)
+        if bad:
+            fails += 1
+            rep.violation("groupby:fault", {"items": repr(items), "ops": ops, "fault": [where, k, type(exc).__name__], "why": bad})
+    return fails
+
+
+class _Tok:
+    def __init__(self, t):
+        self.t = t
+
+    def __await__(self):
+        yield self.t
+
+
+class _Cancel(BaseException):
+    pass
+
+
+def release_run(items, key, ops, cancel_at):
+    """C04/C18 for groupby: the source suspends at every pull and in aclose; the operations run; optionally an
+    exception is thrown into the operation in progress at its `cancel_at`-th suspension; then the owner calls
+    groupby.aclose(). Returns (suspensions seen, source closes, source open?, error)"""
+    class S:
+        def __init__(s):
+            s.items = list(items)
+            s.closes = 0
+            s.busy = False
+
+        def __aiter__(s):
+            return s
+
+        async def __anext__(s):
+            await _Tok("pull")
+            if s.closes or not s.items:
+                raise StopAsyncIteration
+            return s.items.pop(0)
+
+        async def aclose(s):
+            await _Tok("close")
+            s.closes += 1
+    src = S()
+
+    async def kf(x):
+        await _Tok("key")
+        return apply_fn(key, [x]) if key is not None else x.key
+    gb = a.groupby(src, key=kf)
+    groups = []
+    susp = [0]
+    err = [None]
+
+    def run_coro(coro, may_cancel):
+        try:
+            v = coro.send(None)
+            while True:
+                susp[0] += 1
+                if may_cancel and susp[0] == cancel_at:
+                    coro.throw(_Cancel())
+                    err[0] = "cancellation swallowed"
+                    return "swallowed"
+                v = coro.send(None)
+        except StopIteration as e:
+            return ("ok", e.value)
+        except StopAsyncIteration:
+            return ("stop",)
+        except _Cancel:
+            return "cancelled"
+        except BaseException as e:  # noqa
+            err[0] = "%s: %s" % (type(e).__name__, e)
+            return "error"
+    for op in ops:
+        if op[0] == "adv":
+            r = run_coro(gb.__anext__(), True)
+            if isinstance(r, tuple) and r[0] == "ok":
+                groups.append(r[1][1])
+        elif op[0] == "grp" and op[1] < len(groups):
+            r = run_coro(groups[op[1]].__anext__(), True)
+        elif op[0] == "gclose" and op[1] < len(groups):
+            r = run_coro(groups[op[1]].aclose(), True)
+        else:
+            continue
+        if r in ("cancelled", "swallowed", "error"):
+            break
+    r = run_coro(gb.aclose(), False)
+    return susp[0], src.closes, err[0], r
+
+
+def aspect_release(rep, rng, n, cancel):
+    """called by the C04 (cancel=False) and C18 (cancel=True) checks as well"""
+    fails = 0
+    for _ in range(n):
+        items, key, ops = gen_case(rng, "quick", with_close=True)
+        ops = [o for o in ops if o[0] != "close"]
+        if rng.random() < 0.15:
+            ops = ops[:rng.randrange(0, 2)]        # unstarted or barely started
+        total, closes, err, r = release_run(items, key, ops, None)
+        positions = [None] if not cancel else list(range(1, total + 1))
+        if len(positions) > 12:
+            positions = rng.sample(positions, 12)
+        for pos in positions:
+            if pos is not None:
+                total, closes, err, r = release_run(items, key, ops, pos)
+            rep.count(("gb-release", repr(items), key, tuple(ops), pos), True)
+            bad = None
+            if err and pos is None:
+                bad = "operation failed: %s" % err
+            elif err == "cancellation swallowed":
+                bad = "an exception thrown at suspension %d did not propagate" % pos
+            elif r == "error":
+                bad = "groupby.aclose() failed: %s" % err
+            elif closes != 1:
+                bad = "after groupby.aclose() the source was closed %d times" % closes
+            if bad:
+                fails += 1
+                rep.violation("groupby:release", {"items": repr(items), "key": key, "ops": ops, "cancel_at_suspension": pos, "why": bad})
+                break
+    return fails
+
+
 def coq_obs(o):
     if o[0] == "new":
         return "ONewGroup %s %d" % (coq_val(o[1]), o[2])
@@ -280,26 +492,10 @@ def run(tier, seed):
             "; ".join(coq_val(x) for x in items), coq_opt(key, coq_fn), "; ".join(coq_op(o) for o in ops),
             "; ".join(coq_obs(o) for o in obs), pulls, closes,
             "None" if std is None else "(Some [%s])" % "; ".join(coq_obs(o) for o in std)))
-    # errors from the source or the key function surface unchanged where itertools.groupby would raise (C06 for groupby)
-    for _ in range(300 * common.scale(rep) if tier == "quick" else 6000):
-        items, key, ops = gen_case(rng, tier, with_close=False)
-        where = rng.choice(["src", "key"])
-        k = rng.randrange(1, len(items) + 3)
-        exc = rng.choice(FAULT_TYPES)("injected")
-        oa, os_ = fault_run(items, ops, where, k, exc)
-        rep.count(("fault", repr(items), tuple(ops), where, k, type(exc).__name__), True)
-        bad = None
-        fired_std = os_ and os_[-1][0] == "raise"
-        if fired_std:
-            if not (oa and oa[-1][0] == "raise" and oa[-1][1]) or len(oa) != len(os_):
-                bad = "itertools.groupby raises the injected %s at operation %d; asyncstdlib: %r" % (type(exc).__name__, len(os_) - 1, oa[-2:])
-            elif not builtins.all(same_obs(x, y) for x, y in builtins.zip(oa[:-1], os_[:-1])):
-                bad = "observations before the fault differ: %r vs %r" % (oa, os_)
-        elif oa and oa[-1][0] == "raise" and not oa[-1][1]:
-            bad = "asyncstdlib raised a different exception: %r" % (oa[-1],)
-        if bad:
-            fails += 1
-            rep.violation("groupby:fault", {"items": repr(items), "ops": ops, "fault": [where, k, type(exc).__name__], "why": bad})
+    fails += aspect_faults(rep, rng, 300 * common.scale(rep) if tier == "quick" else 6000)
+    fails += aspect_lazy(rep, rng, 300 * common.scale(rep) if tier == "quick" else 6000)
+    fails += aspect_release(rep, rng, 150 * common.scale(rep) if tier == "quick" else 2000, cancel=False)
+    fails += aspect_release(rep, rng, 100 * common.scale(rep) if tier == "quick" else 1500, cancel=True)
     rep.notes["ops_length_distribution"] = lens
     shards = [texts[i:i + 500] for i in range(0, len(texts), 500)]
     outs = coq_eval_files("c16", [HEADER + "Definition cases : list gcase := [\n" + ";\n".join(sh) + "\n].\nEval vm_compute in (gfailing cases).\n" for sh in shards])
